@@ -110,7 +110,14 @@ func (s Scanned) Request(op string, maxRec int, leak bool) string {
 		b.WriteString(" (")
 		b.WriteByte(t.Kind)
 		b.WriteByte(' ')
-		b.WriteString(hx.A(t.Value).String())
+		switch {
+		case t.Kind == 'p' && t.Value == "(":
+			b.WriteString("LP") // parentheses would need quoting; the shared S-expression reader is slow on quoted atoms
+		case t.Kind == 'p' && t.Value == ")":
+			b.WriteString("RP")
+		default:
+			b.WriteString(hx.A(t.Value).String())
+		}
 		b.WriteByte(' ')
 		b.WriteString(strconv.Itoa(t.Line))
 		b.WriteByte(' ')
